@@ -168,7 +168,7 @@ def run(ctx: core.Ctx) -> int:
                           "label": json.dumps({"merge": [[n["pfx"], n["y1"], n["y2"], n["holder"]] for n in S2], "via": via})})
     for i, c in enumerate(cases):
         c["tid"] = i + 1
-    events = core.pmap(run_case, cases, chunksize=32)
+    events = ctx.pmap(run_case, cases, chunksize=32)
     for ev in events[:: max(1, len(events) // 4)][:4]:
         ctx.samples.append({k: v for k, v in ev.items() if k not in ("tid",)})
     ctx.validate("Trace_C20", "Trace_C20.cfg", events)
@@ -190,4 +190,4 @@ def run(ctx: core.Ctx) -> int:
 
 
 def replay(ctx: core.Ctx, path: str) -> int:
-    raise core.MachineryError("replay for C20 re-runs the case list; use the check with the same VERIF_SEED")
+    return core.generic_replay(ctx, path)
